@@ -412,13 +412,108 @@ def replay_cli_chain(ctx, c):
     return bool(bad)
 
 
+def run_shape_mix(ctx, n):
+    """the laws across the shape exemption: the same field stored as (…,n) on one side and as (…,n,1) on the other
+    (a scalar field against a one-component vector field), both argument orders, every predicate, float / integer /
+    string data, identical data or one deviating entry; also 0-d against (1,).  Symmetry must hold whichever side
+    carries the extra axis; identical data must compare equal in both orders."""
+    rng = ctx.rng
+    groups, lines, lidx = [], [], []
+    for _ in range(n):
+        dt = rng.choice(["f64", "f64", "f32", "i32", "u8", "i64", "str"])
+        n0 = rng.choice([1, 2, 3, 7])
+        base = rng.choice([[n0], [n0], [n0, 2], [n0, 1], []])
+        size = 1
+        for d in base:
+            size *= d
+        if dt in ("f64", "f32"):
+            scale = rng.choice(c01.EXPS[2:-2]) if dt == "f64" else 0
+            a = [c01.rand_float(rng, [scale]) for _ in range(size)]
+            if dt == "f32":
+                a = [float(np.float32(x)) for x in a]
+                a = [x if np.isfinite(x) else 1.5 for x in a]
+        elif dt == "str":
+            a = [rng.choice(["a", "b", "wall", "inlet ", ""]) for _ in range(size)]
+        else:
+            a = [c09.rand_int(rng, dt) for _ in range(size)]
+        b = list(a)
+        deviates = rng.random() < 0.6
+        if deviates:
+            i = rng.randrange(size)
+            if dt in ("f64", "f32"):
+                b[i] = a[i] * 1.5 + 1.0
+                if dt == "f32":
+                    b[i] = float(np.float32(b[i]))
+                if b[i] == a[i] or not np.isfinite(b[i]):
+                    b[i] = a[i] + 1.0 if abs(a[i]) < 1e6 else 0.0
+            elif dt == "str":
+                b[i] = a[i] + "x"
+            else:
+                lo, hi = c09.INTS[dt]
+                b[i] = a[i] + 1 if a[i] < hi else a[i] - 1
+        ext = base + [1]
+        rel = rng.choice([["dflt"], ["num", 0.0], ["num", 1e-9]])
+        abs_ = rng.choice([["dflt"], ["num", 0.0]])
+        for kind in ("fuzzy", "default", "exact"):
+            if kind == "fuzzy" and dt not in ("f64", "f32"):
+                continue          # explicit FuzzyEquality on strings / integers: no default tolerance, findings F12/F13
+            As, Ae = {"dt": dt, "shape": base, "v": a}, {"dt": dt, "shape": ext, "v": a}
+            Bs, Be = {"dt": dt, "shape": base, "v": b}, {"dt": dt, "shape": ext, "v": b}
+            evs = {"se": (As, Be), "es": (Be, As), "es2": (Ae, Bs), "se2": (Bs, Ae), "self_se": (As, Ae), "self_es": (Ae, As)}
+            g = {"kind": kind, "dt": dt, "evs": evs, "rel": rel, "abs": abs_, "dev": deviates, "model": {}}
+            if dt != "f32":
+                for name, (x, y) in evs.items():
+                    lines.append(predio.enc_pred(kind, rel, abs_, x, y)); lidx.append((len(groups), name))
+            groups.append(g)
+    if ctx.driver_ok and lines:
+        for (gi, name), r in zip(lidx, ctx.lean(lines)):
+            groups[gi]["model"][name] = r
+    for g in groups:
+        kind, evs, rel, abs_ = g["kind"], g["evs"], g["rel"], g["abs"]
+        v = {name: predio.run_impl(kind, rel, abs_, x, y) for name, (x, y) in evs.items()}
+        case = {"kind": kind, "rel": rel, "abs": abs_, "evaluations": {k: [x, y] for k, (x, y) in evs.items()}}
+        (x0, y0) = evs["se"]
+        ctx.case(("shapemix", kind, g["dt"], str(x0["shape"]), tuple(x0["v"]), tuple(y0["v"]), str(rel), str(abs_)),
+                 nontrivial=g["dev"], tags=["shape-mix", "shape-mix-" + kind, "shape-mix-" + g["dt"],
+                                            "shape-mix-base%d" % len(x0["shape"])], sample=None)
+        for name, r in g["model"].items():
+            if "model" not in r:
+                continue
+            if r.get("hyp") == "1" and r["model"] != v[name]:
+                ctx.mismatch(dict(case, evaluation=name), v[name], r["model"])
+        for p, q in (("se", "es"), ("es2", "se2"), ("self_se", "self_es")):
+            if v[p] != v[q]:
+                ctx.violation(dict(case, law="symmetric", pair=[p, q]), f"{v[p]}/{v[q]}", "equal verdicts",
+                              what="verdict depends on which side stores the scalar field with the extra axis of length 1")
+        for p in ("self_se", "self_es"):
+            if v[p] != "T":
+                ctx.violation(dict(case, law="reflexive", evaluation=p), v[p], "T",
+                              what="identical data stored as (..,n) and (..,n,1) do not compare equal")
+        if g["dev"]:
+            for p in ("se", "es", "es2", "se2"):
+                if v[p] == "T" and (kind != "fuzzy"):
+                    ctx.violation(dict(case, law="shape-mix-deviation", evaluation=p), v[p], "F",
+                                  what="a deviating entry is accepted when the two sides differ by a trailing axis of length 1")
+
+
+def replay_shape_mix(ctx, c):
+    kind, rel, abs_ = c["kind"], c["rel"], c["abs"]
+    v = {k: predio.run_impl(kind, rel, abs_, x, y) for k, (x, y) in c["evaluations"].items()}
+    print("replay shape-mix verdicts:", v)
+    bad = [pq for pq in (("se", "es"), ("es2", "se2"), ("self_se", "self_es")) if v[pq[0]] != v[pq[1]]]
+    bad += [p for p in ("self_se", "self_es") if v[p] != "T"]
+    print("replay: laws violated:", bad or "none")
+    return bool(bad)
+
+
 def run(ctx):
     ctx.rule = ("metamorphic groups on real predicate objects: float64 pairs (boundary-directed deviations, shapes "
                 "(n,),(n,k),(n,k,k)) evaluated as (a,a),(a,b),(b,a) and at tolerance levels t1<=t2 (scalar, per-component, "
                 "scaled); integer pairs of every width/signedness under Default/Exact/Fuzzy (values at the type limits, half range, "
                 "+-2^53; (n,) and 0-d; signed pairs are classified by the driver as safe / type-minimum / overflowing "
                 "difference); ScaledTolerance values on "
-                "float and integer arrays; predicate objects reused across 3-6 fields; the same laws on the command-line route "
+                "float and integer arrays; predicate objects reused across 3-6 fields; the same field stored as (..,n) against "
+                "(..,n,1) in either argument order under every predicate (float/int/str data, 0-d against (1,)); the same laws on the command-line route "
                 "(CSV / .vtu files with float64 fields, chains of -rtol / -atol option lists starting at an explicit zero, general "
                 "and per-field values in either order, files swapped, file against itself); non-trivial = a != b; distinct = "
                 "distinct operands+tolerances resp. (option chain, file contents)")
@@ -430,6 +525,7 @@ def run(ctx):
     run_ints(ctx, ctx.scale(400, 30000))
     run_scaled(ctx, ctx.scale(600, 50000))
     run_history(ctx, ctx.scale(150, 10000))
+    run_shape_mix(ctx, ctx.scale(300, 20000))
     run_cli_chains(ctx, n_vtu=ctx.scale(16, 70), rounds=ctx.scale(1, 12))
 
 
@@ -455,6 +551,11 @@ def replay(ctx, payload):
     law = c.get("law")
     if c.get("kind") == "cli-chain":
         if replay_cli_chain(ctx, c):
+            print(f"VIOLATION property=C10 replay={payload.get('_path', '<replay>')}")
+            return 1
+        return 0
+    if "evaluations" in c:
+        if replay_shape_mix(ctx, c):
             print(f"VIOLATION property=C10 replay={payload.get('_path', '<replay>')}")
             return 1
         return 0
